@@ -26,11 +26,11 @@ def plan(tier, seed):
     for nl in ('\n', '\r\n', '\r'):
         for v2 in (False, True):
             if tier == 'quick':
-                jobs.append(dict(kind='layout', nl=nl, prior_v2=v2, ncmd=2))
+                jobs.append(dict(kind='layout', nl=nl, prior_v2=v2, ncmd=2, ml_cmds=2))
             else:
                 # 3 commands: ~72 000 layouts per line-break style; split over workers by the first command's style
                 for st in range(3):
-                    jobs.append(dict(kind='layout', nl=nl, prior_v2=v2, ncmd=3, max_paths=200000, pin={'style0': st}))
+                    jobs.append(dict(kind='layout', nl=nl, prior_v2=v2, ncmd=3, ml_cmds=1, max_paths=400000, pin={'style0': st}))
     jobs.append(dict(kind='errors', via='source-stub'))
     jobs.append(dict(kind='cli'))
     return jobs
@@ -173,6 +173,15 @@ def render(ctx, cfg):
                 cur.append(']')
             if ai < len(args) - 1:
                 cur.append(', ')
+        # a quoted string that spans two source lines (a multi-line description in the Metadata): an argument spread
+        # over several lines like any other
+        if c < cfg.get('ml_cmds', 0) and ctx.choice('ml%d' % c, 2):
+            cur.append(', ')
+            expected.append(('argument', 'Metadata@R%d' % c, len(lines) + 1))
+            expected.append(('value', 'Metadata@R%d' % c, len(lines) + 1))
+            cur.append('Metadata = [Note: "first line')
+            newline()
+            cur.append('second line"]')
         if style >= 1:
             newline()
         cur.append(')')
